@@ -521,11 +521,36 @@ def emptyPreConfirmedFor (head : Nat) (d : Diff) : PreConf :=
   { number := head + 1, ident := blankIdent, txCount := 0, eventCount := 0, txs := [], receipts := [],
     txDiffs := [], diff := d }
 
+/-- `core.BlockHashLag` -/
+def blockHashLag : Nat := 10
+
+/-- `core.BlockHashStorageContract` (address `0x1`) -/
+def blockHashContract : Felt := 1
+
+/-- `makeStateDiffForEmptyBlock(bc, blockNumber)` (sync/helpers.go): nothing for the first
+`BlockHashLag` blocks, else the one storage write `0x1[blockNumber-10] = hash(blockNumber-10)`.
+`hashOf n` is `bc.BlockHeaderHashByNumber(n)` (`none`: the call fails, and so does the helper). -/
+def emptyBlockDiff (hashOf : Nat → Option Felt) (blockNumber : Nat) : Option Diff :=
+  if blockNumber < blockHashLag then some {}
+  else
+    let targetBlock := blockNumber - blockHashLag
+    match hashOf targetBlock with
+    | none => none
+    | some h => some { storage := [((blockHashContract, targetBlock), h)] }
+
 /-- `Synchronizer.PreConfirmedChain()` in a state (canonical height, cached header number, storage) -/
 def readerView (height : Nat) (_cachedHeader : Option Nat) (s : Store) (fallbackDiff : Diff) : Reader :=
   let snapshot := snapshotFor s (height + 1)
   if snapshot.length > 0 then snapshot
   else { nodes := [emptyPreConfirmedFor height fallbackDiff], length := 1 }
+
+/-- the whole of `Synchronizer.PreConfirmedChain()`: the aligned snapshot, else the empty block
+above the head built by `MakeEmptyPreConfirmedForParent` (`none`: its block-hash lookup failed) -/
+def readerViewFull (height : Nat) (cachedHeader : Option Nat) (s : Store) (hashOf : Nat → Option Felt) :
+    Option Reader :=
+  let snapshot := snapshotFor s (height + 1)
+  if snapshot.length > 0 then some snapshot
+  else (emptyBlockDiff hashOf (height + 1)).map fun d => readerView height cachedHeader s d
 
 /-! ## Lookups on a view -/
 
@@ -539,6 +564,19 @@ def receiptByHash (r : Reader) (h : Felt) : Option (Rcpt × Nat) :=
   if r.length == 0 then none
   else r.newestFirst.findSome?
     (fun e => (e.receipts.find? (fun rc => rc.txHash == h)).map (fun rc => (rc, e.number)))
+
+/-- the loop of `(*PreConfirmed).TransactionByHash`: the first transaction with that hash and its index -/
+def txIndexFrom : List Tx → Nat → Felt → Option (Tx × Nat)
+  | [], _, _ => none
+  | t :: rest, i, h => if t.hash == h then some (t, i) else txIndexFrom rest (i + 1) h
+
+/-- `(*pending.PreConfirmed).TransactionByHash(hash)` (core/pending/pending.go): the transaction and its
+index in the block (the index the trace handlers pass to `PreConfirmedStateBeforeIndexAt`);
+`none` = `ErrTransactionNotFound` -/
+def PreConf.txByHash (e : PreConf) (h : Felt) : Option (Tx × Nat) := txIndexFrom e.txs 0 h
+
+/-- `(*pending.PreConfirmed).ReceiptByHash(hash)`; `none` = `ErrTransactionReceiptNotFound` -/
+def PreConf.receiptByHash (e : PreConf) (h : Felt) : Option Rcpt := e.receipts.find? (fun rc => rc.txHash == h)
 
 /-! ## The overlay state reader (`pending.State`) -/
 
